@@ -338,7 +338,20 @@ def gen(rng, tier):
         else:
             raise ValueError("no generator for form %d" % i)
     reqs += digit_cells(rng, tier)
+    reqs += checked_trait_forms(rng, N)
     return reqs
+
+def checked_trait_forms(rng, N):
+    """api-coverage block: `tform` = the checked_* forms through the num-traits TRAIT impls (trait-qualified call;
+    for BigInt the `form` ids reach the inherent methods instead).  Same operand classes as the `form` ids:
+    large / equal / zero operands, underflow for BigUint::checked_sub, zero divisors, all sign pairs."""
+    out = []
+    for k in (1, 2):
+        for op in (12, 13, 14, 15):
+            src = {12: 1, 13: 2, 14: 3, 15: 4}[op]
+            for (x, y) in bigbig_pairs(rng, k, src, 2 * N):
+                out.append("C10 tform %d %s %s" % (fid(k, op, 0, 0, 3), wb(k, x), wb(k, y)))
+    return out
 
 def digit_cells(rng, tier):
     """the case splits that exist only in the DIGIT-level leaves (NB.Model.ScalarD), hit on every run:
